@@ -317,11 +317,17 @@ restoring a kept version `b` whose whole stitch chain is kept — `b` itself if 
 incomplete `b` also the earlier bands it continues into — gives the same result (outcome: the same
 list of restored nodes with the same contents, or the same error) and the same reported errors as
 before the delete.  A kept INCOMPLETE band that stitches into a deleted band is outside the
-property ("every remaining COMPLETE version restores exactly"): the chain condition excludes it. -/
+property ("every remaining COMPLETE version restores exactly"): the chain condition excludes it.
+Since the repair of `previous_existing_band` (a listing that walks past an id whose head file is gone
+but whose index still holds hunk 0 reports `bandHeadMissing` for it) one more condition is needed for
+an INCOMPLETE `b`: no band of `D` below `b` is such a band — deleting it would (rightly) end the
+complaint, so the events would differ.  Nothing is added for a complete `b`
+(`C02h.delete_any_world_keeps_restore`). -/
 def delete_keeps_restore_Statement : Prop :=
   ∀ (H : Str → Str) (s : Store) (D : List Nat) (o : DeleteOpts) (b : Nat),
     DelArchOK s D → DirsOk s → s.get? .gcLock = none → newestComplete s → o.dryRun = false → D.Nodup →
     (∀ b' ∈ D, b' ∈ bandIdsOf s) → (∀ c ∈ stitchChain s b, c ∉ D) →
+    (∀ b' ∈ D, b' < b → fileAt s (.bandHead b') = false → fileAt s (.hunk b' 0) = false) →
     let s' := ((deleteBands true D o).run (World.clean s)).2.store
     let r := (restore H (.specified b) [slash] (fun _ => false)).run (World.clean s)
     let r' := (restore H (.specified b) [slash] (fun _ => false)).run (World.clean s')
